@@ -251,7 +251,7 @@ def audit_theorems():
 
 
 # ------------------------------------------------------------------ running both sides
-def run_pair(ops_text, harness_bin, tag="run", timeout=1200, harness_env=None):
+def run_pair(ops_text, harness_bin, tag="run", timeout=1200, harness_env=None, partial_on_timeout=False):
     """Runs the implementation harness, then the model driver on the echoed (oracle-augmented)
     ops.  Returns dict(impl=str, model=str, impl_rc=int, model_rc=int, impl_err=str)."""
     os.makedirs(WORK, exist_ok=True)
@@ -267,9 +267,24 @@ def run_pair(ops_text, harness_bin, tag="run", timeout=1200, harness_env=None):
     os.makedirs(env["BGH_TMP"], exist_ok=True)
     if harness_env:
         env.update(harness_env)
-    with open(ops_p, "rb") as fin:
-        p = subprocess.run([harness_bin, echo_p], stdin=fin, stdout=subprocess.PIPE,
-                           stderr=subprocess.PIPE, timeout=timeout, env=env)
+    class _P:   # result of the harness run (or what a timed-out run left behind)
+        pass
+    try:
+        with open(ops_p, "rb") as fin:
+            p = subprocess.run([harness_bin, echo_p], stdin=fin, stdout=subprocess.PIPE,
+                               stderr=subprocess.PIPE, timeout=timeout, env=env)
+    except subprocess.TimeoutExpired as e:
+        if not partial_on_timeout:
+            for f in (ops_p, echo_p):
+                try:
+                    os.remove(f)
+                except OSError:
+                    pass
+            raise
+        # a chunk that does not finish: the harness flushes stdout and the echo at every `reset`, so the
+        # histories completed so far are intact and the one it hangs in is the next (engine re-runs it alone)
+        p = _P()
+        p.stdout, p.stderr, p.returncode = (e.stdout or b""), b"timeout", -9
     impl = p.stdout.decode("utf-8", "replace")
     impl_err = p.stderr.decode("utf-8", "replace")
     # the model replays what the implementation echoed; if the harness died, fall back to the
